@@ -21,6 +21,7 @@ This harness renders every scenario to real module files (vf/c12_render.py), the
 import importlib
 import json
 import os
+import re
 import sys
 import tempfile
 import traceback
@@ -83,10 +84,10 @@ def _plans(tier):
     return [
         ('bfs-depth1', dict(maxchain=1, maxinner=2), None),
         ('bfs-depth2', dict(minchain=2, maxchain=2, maxcaller=1, maxinner=1), None),
-        ('bfs-depth3', dict(minchain=3, maxchain=3, maxcaller=1, callerctxs=['if', 'while'], maxinner=1,
-                            innerctxs=['for', 'with', 'fin']), None),
-        ('sim-deep', dict(minchain=3, maxchain=4, maxcaller=2, mininner=1, maxinner=3), dict(num=2500, depth=200)),
-        ('sim-nest', dict(minchain=1, maxchain=3, maxcaller=2, mininner=2, maxinner=3), dict(num=1500, depth=200)),
+        ('bfs-depth3', dict(minchain=3, maxchain=3, maxcaller=1, callerctxs=['if', 'while', 'with'], maxinner=1,
+                            innerctxs=['for', 'else', 'try', 'fin']), None),
+        ('sim-deep', dict(minchain=3, maxchain=4, maxcaller=2, mininner=1, maxinner=3), dict(num=12000, depth=200)),
+        ('sim-nest', dict(minchain=1, maxchain=3, maxcaller=2, mininner=2, maxinner=3), dict(num=8000, depth=200)),
     ]
 
 
@@ -94,12 +95,14 @@ def _plans(tier):
 # module management
 # --------------------------------------------------------------------------------------------------
 class Modules(object):
-    def __init__(self, root):
+    def __init__(self, root, base=0):
         self.root = root
+        self.base = base      # module ids (hence code objects) must be unique within a process: see Modules.get
         self.n = 0
         self.cache = {}
         os.makedirs(os.path.join(root, 'c12allow'), exist_ok=True)
         open(os.path.join(root, 'c12allow', '__init__.py'), 'w').close()
+        sys.modules.pop('c12allow', None)
         sys.path.insert(0, root)
         importlib.invalidate_caches()
         self.loaded = []
@@ -109,7 +112,7 @@ class Modules(object):
         if not fresh and key in self.cache:
             return self.cache[key]
         self.n += 1
-        r = R.render(chain, nest, tail, modid=self.n if modid is None else modid)
+        r = R.render(chain, nest, tail, modid=self.base + self.n if modid is None else modid)
         uname = 'c12u_%d' % self.n
         aname = 'c12allow.m%d' % self.n
         upath = os.path.join(self.root, uname + '.py')
@@ -139,7 +142,7 @@ class Modules(object):
         return mod
 
     def close(self):
-        for nm in self.loaded:
+        for nm in self.loaded + ['c12allow']:
             sys.modules.pop(nm, None)
         if self.root in sys.path:
             sys.path.remove(self.root)
@@ -263,7 +266,7 @@ class Runner(object):
                 w = dict(wit, entry=[loc.filename, loc.lineno, org.loc.filename, org.loc.lineno, org.function_name])
                 # S1: the key is a line of the generated module of this conversion
                 if loc.filename != gpath or not (1 <= loc.lineno <= len(gsrc)):
-                    if loc.filename in (mod['upath'], mod['apath']) or os.path.dirname(loc.filename) in (self.mods.root, os.path.join(self.mods.root, 'c12allow')):
+                    if re.match(r'^(c12u_\d+|m\d+)\.py$', os.path.basename(loc.filename)):   # a rendered user file (this or an earlier module)
                         self.rep.violation('c12:source-map:entry-keyed-by-user-line',
                                            'a source map entry is keyed by a line of a user file instead of a generated line', w)
                         continue
@@ -310,12 +313,14 @@ class Runner(object):
         chain, nest, tail, k = rec['chain'], rec['nest'], rec['tail'], rec['k']
         if twin:
             # history: a file with the same text was loaded and converted before (e.g. one module under two paths)
-            first = self.mods.get(chain, nest, tail, fresh=True, modid=0)
+            self.mods.n += 1
+            tid = self.mods.base + self.mods.n
+            first = self.mods.get(chain, nest, tail, fresh=True, modid=tid)
             try:
                 self.malt.convert(recursive=True)(first['fobj'][0])(R.inputs(k, tail), 1)
             except Exception:
                 pass
-            mod = self.mods.get(chain, nest, tail, fresh=True, modid=0)
+            mod = self.mods.get(chain, nest, tail, fresh=True, modid=tid)
         else:
             mod = self.mods.get(chain, nest, tail, fresh=rec['prior'])
         files = mod['files']
@@ -454,22 +459,75 @@ def _is_subseq(a, b):
     return all(any(x == y for y in it) for x in a)
 
 
-def _run(rep, tier, only=None):
+class _Collect(object):
+    """Report stand-in used inside worker processes; merged into the real report by the parent."""
+
+    def __init__(self):
+        self.viol = {}          # signature -> [what, witness, count]
+        self.counts = {}
+        self.samples = []
+        self.nvalid = 0
+
+    def violation(self, sig, what, witness):
+        if sig in self.viol:
+            self.viol[sig][2] += 1
+        else:
+            self.viol[sig] = [what, witness, 1]
+
+    def add(self, key, n=1):
+        self.counts[key] = self.counts.get(key, 0) + n
+
+    def validated(self, n=1):
+        self.nvalid += n
+
+    def sample(self, s, limit=2):
+        if len(self.samples) < limit:
+            self.samples.append(s)
+
+
+def _work(job):
+    """One worker process: a contiguous block of scenarios (whole modules), in a scratch directory of its own."""
+    idx, items = job
     from malt.core import config
-    root = common.scratch('c12_%d' % os.getpid())   # concurrent runs (mutants, other tiers) must not share it
+    root = common.scratch('c12_%d_%d' % (os.getppid(), idx))
     gen = os.path.join(root, 'gen')
     os.makedirs(gen)
     old_tmp = tempfile.tempdir
     tempfile.tempdir = gen           # malt's loader writes generated modules through tempfile: keep them out of /tmp
     old_rules = config.CONVERSION_RULES
     config.CONVERSION_RULES = (config.DoNotConvert('c12allow'),) + tuple(old_rules)
-    mods = Modules(root)
-    run = Runner(rep, mods)
+    mods = Modules(root, base=(idx + 1) * 1000000)
+    col = _Collect()
+    run = Runner(col, mods)
     run.shape_mismatch = []
     run.imprecise = []
-    workers = 6 if tier == 'quick' else 12
+    err = None
     try:
-        # frames mode: the scan on every short frame sequence
+        for rec, twin in items:
+            run.scenario(rec, twin=twin)
+    except common.MachineryError as e:
+        err = str(e)
+    except Exception:
+        err = 'harness crash in worker:\n' + traceback.format_exc()
+    finally:
+        config.CONVERSION_RULES = old_rules
+        tempfile.tempdir = old_tmp
+        mods.close()
+        common.rmtree(root)
+    return dict(viol=col.viol, counts=col.counts, samples=col.samples, nvalid=col.nvalid, err=err,
+                shape=run.shape_mismatch[:3], nshape=len(run.shape_mismatch), imprecise=run.imprecise[:3],
+                nimprecise=len(run.imprecise), modules=mods.n, scans=run.n_scans, maps=run.n_maps,
+                entries=run.n_entries, flags=run.flag_mismatch)
+
+
+def _run(rep, tier, only=None):
+    import multiprocessing
+    nproc = 4 if tier == 'quick' else 8
+    workers = 6 if tier == 'quick' else 12
+    # ---- frames mode: the scan on every short frame sequence (parent process)
+    root = common.scratch('c12_%d' % os.getpid())
+    try:
+        fr = Runner(rep, Modules(root))
         res = tlc.run_tlc('ErrorMap', _cfg(mode='frames', maxframes=5), workers=workers, timeout=600, name='ErrorMapFrames')
         res.require_ok('ErrorMap frames')
         rep.add_tlc(res)
@@ -478,67 +536,91 @@ def _run(rep, tier, only=None):
             if rec.get('mode') != 'frames':
                 continue
             nfr += 1
-            run.check_scan(rec['tb'], rec['map'], rec['res'], dict(mode='frames'))
+            fr.check_scan(rec['tb'], rec['map'], rec['res'], dict(mode='frames'))
         if nfr != sum(4 ** n for n in range(6)):
             raise common.MachineryError('frames mode printed %d sequences, expected %d' % (nfr, sum(4 ** n for n in range(6))))
         rep.set('frame_sequences', nfr)
-        nsc = 0
-        for name, kw, sim in _plans(tier):
-            if only and name not in only:
-                continue
-            if sim:
-                res = tlc.run_tlc('ErrorMap', _cfg(**kw), workers=1, timeout=900, name='ErrorMap_' + name,
-                                  simulate=sim, seed=common.seed() + 12)
-                # -simulate stops at the trace count: rc/'ok' conventions as in BFS
-            else:
-                res = tlc.run_tlc('ErrorMap', _cfg(**kw), workers=workers, timeout=900, name='ErrorMap_' + name)
-            if res.violated:
-                # a property clause fails on the model itself: design-level violation of the transcribed rules
-                raise common.MachineryError('ErrorMap.tla invariant %s violated on the model (%s)\n%s' % (
-                    res.violated, name, res.stdout[-3000:]))
-            res.require_ok('ErrorMap ' + name)
-            rep.add_tlc(res)
-            recs = [r for r in res.json if r.get('mode') == 'scenario']
-            seen = set()
-            uniq = []
-            for r in recs:
-                key = json.dumps([r['chain'], r['nest'], r['tail'], r['k'], r['prior']])
-                if key not in seen:
-                    seen.add(key)
-                    uniq.append(r)
-            uniq.sort(key=lambda r: json.dumps([r['chain'], r['nest'], r['tail'], r['prior'], r['k']]))
-            if not uniq:
-                raise common.MachineryError('plan %s produced no scenarios' % name)
-            rep.set('scenarios_' + name, len(uniq))
-            for r in uniq:
-                run.scenario(r)
-                nsc += 1
-            if name == 'bfs-depth1':
-                tw = [r for r in uniq if r['k'] in (2, 7) and not r['prior']][:6]
-                for r in tw:
-                    run.scenario(r, twin=True)
-                    nsc += 1
-                rep.set('twin_file_scenarios', len(tw))
-        # model-precision problems are only a verdict of their own when nothing the statement demands failed
-        if run.imprecise and not rep.violations:
-            raise common.MachineryError('transcription imprecise in %d scenario(s): %s' % (len(run.imprecise), run.imprecise[0]))
-        if run.shape_mismatch and not rep.violations:
-            cl, spec_cl, key = run.shape_mismatch[0]
-            raise common.MachineryError('model of the converted run traceback is wrong in %d scenario(s), e.g. %s:\n real %s\n spec %s' % (
-                len(run.shape_mismatch), key, cl, spec_cl))
-        rep.set('scenarios', nsc)
-        rep.set('modules_rendered', mods.n)
-        rep.set('scans_replayed_into_real_function', run.n_scans)
-        rep.set('source_maps_checked', run.n_maps)
-        rep.set('source_map_entries_checked', run.n_entries)
-        rep.set('flag_mismatches_not_demanded_by_statement', run.flag_mismatch)
-        rep.assume('CPython traceback line attribution (validated in-run against the unconverted function)')
-        rep.assume('allow-listing is exercised through config.CONVERSION_RULES extended with DoNotConvert("c12allow")')
     finally:
-        config.CONVERSION_RULES = old_rules
-        tempfile.tempdir = old_tmp
-        mods.close()
+        fr.mods.close()
         common.rmtree(root)
+    # ---- scenario mode
+    tot = dict(modules=0, scans=fr.n_scans, maps=0, entries=0, flags=0, nshape=0, nimprecise=0)
+    shape, imprecise, errs = [], [], []
+    nsc = 0
+    ctx = multiprocessing.get_context('fork')
+    for name, kw, sim in _plans(tier):
+        if only and name not in only:
+            continue
+        if sim:
+            # one worker: the set of sampled behaviours is then a function of the seed alone
+            res = tlc.run_tlc('ErrorMap', _cfg(**kw), workers=1, timeout=900, name='ErrorMap_' + name,
+                              simulate=sim, seed=common.seed() + 12)
+        else:
+            res = tlc.run_tlc('ErrorMap', _cfg(**kw), workers=workers, timeout=900, name='ErrorMap_' + name)
+        if res.violated:
+            # a property clause fails on the model itself: design-level violation of the transcribed rules
+            raise common.MachineryError('ErrorMap.tla invariant %s violated on the model (%s)\n%s' % (
+                res.violated, name, res.stdout[-3000:]))
+        res.require_ok('ErrorMap ' + name)
+        rep.add_tlc(res)
+        seen = set()
+        uniq = []
+        for r in res.json:
+            if r.get('mode') != 'scenario':
+                continue
+            key = json.dumps([r['chain'], r['nest'], r['tail'], r['prior'], r['k']])
+            if key not in seen:
+                seen.add(key)
+                uniq.append((key, r))
+        uniq.sort(key=lambda kr: kr[0])
+        if not uniq:
+            raise common.MachineryError('plan %s produced no scenarios' % name)
+        rep.set('scenarios_' + name, len(uniq))
+        items = [(r, False) for _, r in uniq]
+        if name == 'bfs-depth1':
+            tw = [(r, True) for _, r in uniq if r['k'] in (2, 7) and not r['prior']][:6]
+            items += tw
+            rep.set('twin_file_scenarios', len(tw))
+        # contiguous blocks (scenarios of one module stay together, fixed assignment: deterministic histories)
+        nblocks = nproc * 3
+        size = (len(items) + nblocks - 1) // nblocks
+        jobs = [(i, items[i * size:(i + 1) * size]) for i in range(nblocks) if items[i * size:(i + 1) * size]]
+        with ctx.Pool(nproc) as pool:
+            results = pool.map(_work, jobs, chunksize=1)
+        for out in results:
+            if out['err']:
+                errs.append(out['err'])
+            for sig in sorted(out['viol']):
+                what, wit, n = out['viol'][sig]
+                for _ in range(n):
+                    rep.violation(sig, what, wit)
+            for k, v in out['counts'].items():
+                rep.add(k, v)
+            for sm in out['samples']:
+                rep.sample(sm)
+            rep.validated(out['nvalid'])
+            nsc += out['nvalid']
+            for k in ('modules', 'scans', 'maps', 'entries', 'flags', 'nshape', 'nimprecise'):
+                tot[k] += out[k]
+            shape += out['shape']
+            imprecise += out['imprecise']
+    if errs:
+        raise common.MachineryError(errs[0])
+    # model-precision problems are only a verdict of their own when nothing the statement demands failed
+    if imprecise and not rep.violations:
+        raise common.MachineryError('transcription imprecise in %d scenario(s): %s' % (tot['nimprecise'], imprecise[0]))
+    if shape and not rep.violations:
+        cl, spec_cl, key = shape[0]
+        raise common.MachineryError('model of the converted run traceback is wrong in %d scenario(s), e.g. %s:\n real %s\n spec %s' % (
+            tot['nshape'], key, cl, spec_cl))
+    rep.set('scenarios', nsc)
+    rep.set('modules_rendered', tot['modules'])
+    rep.set('scans_replayed_into_real_function', tot['scans'])
+    rep.set('source_maps_checked', tot['maps'])
+    rep.set('source_map_entries_checked', tot['entries'])
+    rep.set('flag_mismatches_not_demanded_by_statement', tot['flags'])
+    rep.assume('CPython traceback line attribution (validated in-run against the unconverted function)')
+    rep.assume('allow-listing is exercised through config.CONVERSION_RULES extended with DoNotConvert("c12allow")')
 
 
 def run(rep):
